@@ -76,6 +76,7 @@ def join_rule(facts, ex, res, kind):
     fm = ex.exec_model
     stage_names = set(ex.stages)
     n = 0
+    creators = []
     for c in walk(fm.body):
         if c.get("k") in ("CallExpr", "CXXMemberCallExpr") and ex._self_call(c) in stage_names:
             n += 1
@@ -91,10 +92,30 @@ def join_rule(facts, ex, res, kind):
                 rets = [r for r in walk(fm.body) if r.get("k") == "ReturnStmt" and r["l"][1] > c["l"][1]]
                 if rets and waits and min(r["l"][1] for r in rets) < max(w["l"][1] for w in waits):
                     ok = False
+            if kind == "omp":
+                creator = [a for a in tbf.ancestors(c) if a.get("k") in ("OMPMasterDirective", "OMPSingleDirective", "OMPMaskedDirective")]
+                par = [a for a in tbf.ancestors(c) if a.get("k") == "OMPParallelDirective"]
+                if ok and not creator:
+                    res.violation("C03.e.join", tbf.rel(facts.path_of(c)), ex.cls + "::execute", ex._self_call(c) + ":every-thread", c["l"][1],
+                                  "stage call inside `omp parallel` but outside any master / single construct: every thread of the team submits the stage's tasks")
+                creators.append((creator[0] if creator else None, c))
             res.instance("C03.e.join", "%s::execute -> %s" % (ex.cls, ex._self_call(c)), facts.loc(c), how)
             if not ok:
                 res.violation("C03.e.join", tbf.rel(facts.path_of(c)), ex.cls + "::execute", ex._self_call(c), c["l"][1],
                               "stage call is not " + how)
+    # one creator: `depend` clauses order sibling tasks only, i.e. tasks generated by the same (implicit) task
+    regions = {}
+    for cr, c in creators:
+        if cr is not None:
+            regions.setdefault(id(cr), (cr, []))[1].append(c)
+    if len(regions) > 1:
+        rs = sorted(regions.values(), key=lambda r: -len(r[1]))
+        for cr, calls in rs[1:]:
+            for c in calls:
+                res.violation("C03.e.join", tbf.rel(facts.path_of(c)), ex.cls + "::execute", ex._self_call(c) + ":other-creator", c["l"][1],
+                              "stage %s is submitted from the `%s` construct at line %d while %s are submitted from the one at line %d: the two constructs may be executed by different threads, "
+                              "their tasks are not siblings, and the depend clauses of one set do not order it with the other (both update the same particle results)" % (
+                                  ex._self_call(c), cr["k"].replace("OMP", "omp ").replace("Directive", "").lower(), cr["l"][1], sorted(set(ex._self_call(x) for x in rs[0][1])), rs[0][0]["l"][1]))
     # reachable only from execute
     for m in facts.methods_of(ex.cls):
         if m["name"] == "execute":
